@@ -133,4 +133,46 @@ theorem gen_readBounds (cd : Codec) (h : Hdr) (isCon : Bool) :
     | .cmt _ :: _ => simp [readBndItems, readBndItemsG]
     | .eol :: _ => simp [readBndItems, readBndItemsG]
 
+/-- the model's column-size reader is the one driven by the statements extracted from `ReadColumnSizes` -/
+theorem gen_readColItems (cum : Bool) : ∀ (n prev : Nat) (ts : List Tok),
+    readColItems cum prev n ts = readColItemsG colCumStmts cum prev n ts := by
+  intro n
+  induction n with
+  | zero => intro prev ts; simp [readColItems, readColItemsG]
+  | succ n ih =>
+    intro prev ts
+    simp only [readColItems, readColItemsG]
+    cases hr : readUInt ts with
+    | error e => rfl
+    | ok p =>
+      obtain ⟨s, ts1⟩ := p
+      simp only
+      cases cum with
+      | false =>
+        simp only [Bool.false_eq_true, false_and, if_false, ih]
+        rfl
+      | true =>
+        by_cases hlt : s < prev
+        · simp [colCumStmts, CStmt.run, hlt]
+        · have e : prev + (s - prev) = s := by omega
+          simp only [colCumStmts, CStmt.run, hlt, true_and, if_true, if_false, e, ih]
+          rfl
+
+/-- the model's column-size writers are `ColSizeWriter::Write` as extracted (kind 1 accumulates and prints the sum, kind 2 prints the size) -/
+theorem gen_wColItems : (∀ (l : List Nat) (acc : Nat), wColItemsCum acc l = wColItemsG colWriteCases 1 acc l) ∧
+    (∀ (l : List Nat) (acc : Nat), wColItemsPlain l = wColItemsG colWriteCases 2 acc l) := by
+  constructor
+  · intro l
+    induction l with
+    | nil => intro acc; simp [wColItemsCum, wColItemsG]
+    | cons s r ih => intro acc; simp [wColItemsCum, wColItemsG, colWriteCases, ih]
+  · intro l
+    induction l with
+    | nil => intro acc; simp [wColItemsPlain, wColItemsG]
+    | cons s r ih =>
+      intro acc
+      have h := ih acc
+      simp only [colWriteCases] at h
+      simp [wColItemsPlain, wColItemsG, colWriteCases, ← h]
+
 end MpVerif.C03
